@@ -517,3 +517,46 @@ def double_crash(rep, exe, work, rng):
                       "#! run 1: CV_FAULT_AT=6 CV_FAULT_FRAC=0.5 ; run 2 (after '#--'): CV_FAULT_AT=3 CV_FAULT_FRAC=0.5, CV_FAULT_PREFIX=%s/\n" % work
                       + "\n".join(ops1) + "\n#--\n" + "\n".join(ops2) + "\n",
                       "double_crash", found_input=True, signature="double-crash: partial file renamed over good .old")
+
+
+# ---------------------------------------------------------------------------------------------
+# states that are well-formed but do not fit the configuration that loads them (under AddressSanitizer)
+# ---------------------------------------------------------------------------------------------
+def foreign_states(rep, tier, rng):
+    """a state written by a run with a longer lambda schedule (stage beyond the schedule of the loading configuration), text and binary:
+    the load and the steps after it must not touch memory out of bounds"""
+    exe = cvbuild.build_harness("asan")
+    d = os.path.join(scratch(), "foreign")
+    shutil.rmtree(d, ignore_errors=True)
+    os.makedirs(d)
+    def bias(sched):
+        return "harmonic {\n name hb\n colvars a\n centers 0.0\n forceConstant 1.0\n targetForceConstant 5.0\n targetNumSteps 2\n lambdaSchedule %s\n}\n" % sched
+    cvc = inj_cv("a", 0, -3.0, 3.0, 0.5)
+    n = 0
+    for fmt in ("", " bin"):
+        for long_, short in (("0.0 0.2 0.5 0.8 1.0", "0.0 1.0"), ("0.0 0.1 0.2 0.3 0.4 0.6 0.8 1.0", "0.0 0.5 1.0")):
+            pfx = os.path.join(d, "st%d" % n)
+            L = ["m.new 1", "M.noclock", cfg(cvc + bias(long_))]
+            for t in range(2 * len(long_.split())):
+                L += [pos(0, 0.0, 0.0, 0.1 * t), "m.step"]
+            L += ["m.save %s%s" % (pfx, fmt), "m.new 1", "M.noclock", cfg(cvc + bias(short)), "m.load %s" % pfx]
+            for t in range(4):
+                L += [pos(0, 0.0, 0.0, 0.1 * t), "m.step", "m.bias hb"]
+            opf = os.path.join(d, "foreign%d.txt" % n)
+            open(opf, "w").write("\n".join(L) + "\n")
+            p = subprocess.run([exe, opf], stdout=subprocess.PIPE, stderr=subprocess.PIPE, text=True, timeout=300)
+            n += 1
+            if p.returncode != 0:
+                why = [l for l in p.stderr.splitlines() if "AddressSanitizer" in l or "SUMMARY" in l][:2]
+                rep.violation("a state written with the schedule (%s) loaded by a configuration with the schedule (%s)%s: the process ends with status %d %s"
+                              % (long_, short, fmt, p.returncode, " | ".join(why)[:300]), "\n".join(L) + "\n", "foreign_state_%d" % n, found_input=True,
+                              signature="staged restraint: stage beyond the schedule after loading")
+    rep.extra["foreign_states"] = {"cases": n, "harness": "AddressSanitizer"}
+
+
+_extra_crash = extra
+
+
+def extra(rep, tier, rng):
+    _extra_crash(rep, tier, rng)
+    foreign_states(rep, tier, rng.fork())
